@@ -16,7 +16,12 @@
 #define NBODIES 4
 static const char *BODYN[NBODIES] = { "P1 read/query/write/free", "P2 build/set/merge/free", "P3 layered read with options", "P4 malformed file" };
 
-typedef struct { int body; char dir[300]; sbuf out; } tctx;
+typedef struct { int body; int instance; char dir[300]; sbuf out; } tctx;
+/* per-instance parameters: shared static state inside the library only becomes visible when the threads pass different data */
+static const char *B_SFX[2] = { "conf", "cfg" };
+static const char *B_NAME[2] = { "cfg", "app" };
+static const char *B_DELIM[2] = { "=", ":=" };
+static const char *B_COMM[2] = { "#", ";#" };
 
 static void b_mkfile(const char *dir, const char *rel, const char *content)
 {
@@ -30,17 +35,25 @@ static void body_prepare(tctx *t, int instance)
   char p[700];
   mkdir(t->dir, 0755);
   char tag[16]; snprintf(tag, sizeof tag, "i%d", instance);
+  t->instance = instance;
+  int v = instance & 1;
   if (t->body == 0) {
     sbuf c = {0};
-    sb_printf(&c, "# about %s\nname=\"Value Of %s\" # trailing\nnum=4%d\nflag=Yes\n[sec]\nmulti=one\n  two %s\n\tthree\nempty=\nlast=%s-end\n", tag, tag, instance, tag, tag);
+    char d = B_DELIM[v][0], cc = B_COMM[v][0];
+    sb_printf(&c, "%c about %s\nname%c\"Value Of %s\" %c trailing\nnum%c4%d\nflag%cYes\n[sec]\nmulti%cone\n  two %s\n\tthree\nempty%c\nlast%c%s-end\n", cc, tag, d, tag, cc, d, instance, d, d, tag, d, d, tag);
     b_mkfile(t->dir, "p1.conf", c.s); sb_free(&c);
   } else if (t->body == 2) {
-    snprintf(p, sizeof p, "%s/usr/lib/proj/cfg.conf.d", t->dir); char cmd[900]; snprintf(cmd, sizeof cmd, "mkdir -p %s %s/etc/proj/cfg.conf.d %s/run/proj", p, t->dir, t->dir);
+    const char *nm = B_NAME[v], *sf = B_SFX[v];
+    char cmd[1200]; snprintf(cmd, sizeof cmd, "mkdir -p %s/usr/lib/proj/%s.%s.d %s/etc/proj/%s.%s.d %s/run/proj", t->dir, nm, sf, t->dir, nm, sf, t->dir);
     if (system(cmd) != 0) mc_die("mkdir");
-    sbuf c = {0};
-    sb_printf(&c, "where=vendor-%s\ndup=a\ndup=b\n[S]\nk=v-%s\n", tag, tag); b_mkfile(t->dir, "usr/lib/proj/cfg.conf", c.s); sb_reset(&c);
-    sb_printf(&c, "drop=10-%s\n[S]\nk=drop-%s\n", tag, tag); b_mkfile(t->dir, "usr/lib/proj/cfg.conf.d/10-a.conf", c.s); sb_reset(&c);
-    sb_printf(&c, "drop=20-%s\nextra=%s\n", tag, tag); b_mkfile(t->dir, "etc/proj/cfg.conf.d/20-b.conf", c.s); sb_free(&c);
+    sbuf c = {0}; char rel[200];
+    sb_printf(&c, "where=vendor-%s\ndup=a\ndup=b\n[S]\nk=v-%s\n", tag, tag); snprintf(rel, sizeof rel, "usr/lib/proj/%s.%s", nm, sf); b_mkfile(t->dir, rel, c.s); sb_reset(&c);
+    sb_printf(&c, "drop=10-%s\n[S]\nk=drop-%s\n", tag, tag); snprintf(rel, sizeof rel, "usr/lib/proj/%s.%s.d/10-a.%s", nm, sf, sf); b_mkfile(t->dir, rel, c.s); sb_reset(&c);
+    sb_printf(&c, "drop=20-%s\nextra=%s\n", tag, tag); snprintf(rel, sizeof rel, "etc/proj/%s.%s.d/20-b.%s", nm, sf, sf); b_mkfile(t->dir, rel, c.s); sb_reset(&c);
+    /* decoys carrying the OTHER instance's name and suffix: they must never be read */
+    sb_printf(&c, "where=DECOY\ndecoy=1\n"); snprintf(rel, sizeof rel, "usr/lib/proj/%s.%s", B_NAME[!v], B_SFX[!v]); b_mkfile(t->dir, rel, c.s);
+    snprintf(rel, sizeof rel, "usr/lib/proj/%s.%s", nm, B_SFX[!v]); b_mkfile(t->dir, rel, c.s);
+    snprintf(rel, sizeof rel, "etc/proj/%s.%s.d/30-c.%s", nm, sf, B_SFX[!v]); b_mkfile(t->dir, rel, c.s); sb_free(&c);
   } else if (t->body == 3) {
     sbuf c = {0};
     sb_printf(&c, "ok=%s\n[good]\nk=1\n[broken %s\nnever=1\n", tag, tag); b_mkfile(t->dir, "bad.conf", c.s); sb_free(&c);
@@ -71,7 +84,7 @@ static void body_run(tctx *t)
   switch (t->body) {
   case 0: {
     snprintf(p, sizeof p, "%s/p1.conf", t->dir);
-    LIB(rc = econf_readFile(&kf, p, "=", "#"));
+    LIB(rc = econf_readFile(&kf, p, B_DELIM[t->instance & 1], B_COMM[t->instance & 1]));
     sb_printf(&t->out, "read rc=%d\n", (int)rc);
     if (rc) break;
     b_dump(t, kf);
@@ -83,7 +96,8 @@ static void body_run(tctx *t)
     snprintf(p, sizeof p, "%s/p1.out", t->dir);
     size_t n = 0; char *w = mc_read_file(p, &n); if (w) { sb_put_esc(&t->out, w, n); free(w); } sb_putc(&t->out, '\n');
     if (body_lite) break;
-    LIB(rc = econf_readFile(&kf2, p, "=", "#")); sb_printf(&t->out, "reread rc=%d\n", (int)rc);
+    { char dl[2] = { B_DELIM[t->instance & 1][0], 0 }, cm[2] = { B_COMM[t->instance & 1][0], 0 };
+      LIB(rc = econf_readFile(&kf2, p, dl, cm)); sb_printf(&t->out, "reread rc=%d\n", (int)rc); }
     if (!rc) b_dump(t, kf2);
     break; }
   case 1: {
@@ -103,7 +117,7 @@ static void body_run(tctx *t)
     char opt[500]; snprintf(opt, sizeof opt, "JOIN_SAME_ENTRIES=1;ROOT_PREFIX=%s", t->dir);
     LIB(rc = econf_newKeyFile_with_options(&kf, opt)); sb_printf(&t->out, "options rc=%d\n", (int)rc);
     if (rc) break;
-    LIB(rc = econf_readConfig(&kf, "proj", "/usr/lib", "cfg", "conf", "=", "#")); sb_printf(&t->out, "readConfig rc=%d\n", (int)rc);
+    LIB(rc = econf_readConfig(&kf, "proj", "/usr/lib", B_NAME[t->instance & 1], B_SFX[t->instance & 1], "=", "#")); sb_printf(&t->out, "readConfig rc=%d\n", (int)rc);
     if (!rc) b_dump(t, kf);
     for (int e = 0; e < 25; e += 6) { const char *msg; LIB(msg = econf_errString((econf_err)e)); sb_printf(&t->out, "err%d=%s\n", e, msg); }
     break; }
